@@ -45,6 +45,7 @@ type FuncContract struct {
 	Params     []string // optional explicit parameter names (extern/iface)
 	Where      string
 	Lets       [][2]string // name, expr: ghost abbreviations usable in clauses (evaluated at entry)
+	Expose     bool        // element reads below existential quantifiers are also stated outside them (helps E-matching on goals)
 	GhostMaps  []string    // assumed contracts only: existentially chosen Int->Int maps, fresh at every call (e.g. the permutation of a sort)
 	Uses       map[string]map[string]bool // callee short name -> the only postconditions of it that are assumed at its call sites here
 	CutLoops   bool        // after a loop only the precondition and the loop invariants are known (path history is dropped)
@@ -76,7 +77,7 @@ type ContractDB struct {
 }
 
 var clauseKW = map[string]bool{"props": true, "requires": true, "ensures": true, "modifies": true, "loop": true, "emits": true,
-	"pure": true, "noeffect": true, "trusted": true, "params": true, "let": true, "ghostmap": true, "internal": true, "nosafety": true, "cutloops": true, "uses": true}
+	"pure": true, "noeffect": true, "trusted": true, "params": true, "let": true, "ghostmap": true, "expose": true, "internal": true, "nosafety": true, "cutloops": true, "uses": true}
 
 var topKW = map[string]bool{"func": true, "iface": true, "extern": true, "pred": true, "spec": true, "axiom": true, "lemma": true, "event": true}
 
@@ -271,6 +272,8 @@ func (db *ContractDB) parseFile(file, pkgPath string) error {
 					}
 				case "params":
 					fc.Params = strings.Fields(strings.ReplaceAll(crest, ",", " "))
+				case "expose":
+					fc.Expose = true
 				case "ghostmap":
 					if fc.Kind == "func" && fc.Trusted == "" {
 						return fmt.Errorf("%s: ghostmap is only allowed in assumed contracts (extern, iface, trusted)", cwhere)
